@@ -942,12 +942,12 @@ impl BRC20ProgEngine {
         block_hash: B256,
         is_full: bool,
     ) -> Result<Option<BlockResponseED>, Box<dyn Error>> {
-        self.db.read_fn(|db| {
-            db.get_block_number(block_hash)?
-                .map_or(Ok(None), |block_number| {
-                    self.get_block_by_number(block_number.into(), is_full)
-                })
-        })
+        // Release the read lock before get_block_by_number takes it again: a read lock that is
+        // re-acquired by the same thread deadlocks with a writer queued in between
+        let Some(block_number) = self.db.read().get_block_number(block_hash)? else {
+            return Ok(None);
+        };
+        self.get_block_by_number(block_number.into(), is_full)
     }
 
     pub fn get_contract_bytecode(
